@@ -32,6 +32,7 @@
 (*    txs, txe(..)   a link command starts / its command word went out     *)
 (*    hps, hpe(..)   a header packet starts / its last word went out       *)
 (*    dps, dpe       a data packet payload starts / ends                   *)
+(*    (Env) dp_offer the protocol layer presents a data packet on data_sink *)
 (*    tx_abort       electrical idle began in the middle of a unit         *)
 (*    quiet(..)      nothing but idle and keep-alives for a long time      *)
 (*  every transmitted unit reports cs / sk = how many of its words were    *)
@@ -139,6 +140,8 @@ LkInit == [
     \* not speak about it).  TRUE = that one has not been seen yet.
     staleLc |-> FALSE,
     staleHp |-> FALSE,
+    dpPend  |-> FALSE,    \* the protocol layer presented a data packet whose header has not been queued yet
+    dpHdr   |-> FALSE,    \* the header packet last completed was a data packet header: its payload may follow
     \* ghosts of the current U0 epoch
     gFirst  |-> "none",   \* first thing we transmitted: none | adv (LGOOD advertisement) | other
     gDownTx |-> 0,        \* units started / headers delivered while the link was down beyond DownSlack (never)
@@ -214,7 +217,8 @@ JudgeK(k, r) ==
                         ELSE IF r.cmd = LBAD THEN (IF Tx!LbadLegal THEN "ok" ELSE "env_lbad_illegal")
                         ELSE IF r.cmd = LRTY THEN (IF r_lbadOwed THEN "env_lrty_illegal" ELSE "ok")
                         ELSE "ok"
-    [] r.e = "acc"   -> Tx!AcceptJudge
+    [] r.e = "dp_offer" -> IF ~k.up THEN "env_data_while_down" ELSE IF k.dpPend THEN "env_data_overlap" ELSE "ok"
+    [] r.e = "acc"   -> IF k.dpPend THEN "env_offer_during_data_packet" ELSE Tx!AcceptJudge
     [] r.e = "consume" ->
                         IF r_buf = <<>> THEN "consume_nothing_buffered"
                         ELSE IF Head(r_buf).c # r.c THEN "consume_wrong_header"
@@ -243,7 +247,7 @@ JudgeK(k, r) ==
                         ELSE IF ~r.ok THEN "hp_malformed"
                         ELSE Tx!HpEndJudge(r.s, r.dl, r.c)
     [] r.e = "dps"   -> IF k.busy # "none" THEN "tx_overlap"
-                        ELSE IF ~k.up THEN "data_while_down"
+                        ELSE IF ~k.dpHdr THEN "payload_without_data_header"
                         ELSE NsJudge(r)
     [] r.e = "dpe"   -> IF k.busy # "dp" THEN "dp_without_start" ELSE SkpJudge(r)
     [] r.e = "tx_abort" -> IF k.up THEN "training_while_link_ready" ELSE "ok"   \* electrical idle cut a unit short
@@ -259,7 +263,8 @@ JudgeK(k, r) ==
                         ELSE IF Rx!QuietJudge # "ok" THEN Rx!QuietJudge
                         ELSE IF Tx!QuietJudge # "ok" THEN Tx!QuietJudge
                         ELSE IF r.qv # (r_buf # <<>>) THEN "quiet_queue_valid"
-                        ELSE IF r.qr # Tx!ReadyExpected THEN "quiet_queue_ready"
+                        \* (header_sink sits behind the header arbiter: ready may be low while nothing is offered)
+                        ELSE IF r.qr /\ ~Tx!ReadyExpected THEN "quiet_queue_ready"
                         ELSE "ok"
     [] OTHER -> "unknown_record"
 
@@ -305,6 +310,7 @@ ApplyK(k, r) ==
                ELSE IF r.cmd = LBAD THEN Tx!PartnerLbad /\ todo' = Append(todo, "retry") /\ UNCHANGED rxv
                ELSE IF r.cmd = LRTY THEN Rx!PartnerLrty /\ UNCHANGED <<txv, todo>>
                ELSE UNCHANGED <<rxv, txv, todo>>
+       [] r.e = "dp_offer" -> lk' = [k EXCEPT !.dpPend = TRUE] /\ UNCHANGED <<rxv, txv, todo>>
        [] r.e = "acc"   -> Tx!Accept(r.c) /\ lk' = k /\ UNCHANGED <<rxv, todo>>
        [] r.e = "consume" -> Rx!Consume /\ lk' = k /\ UNCHANGED <<txv, todo>>
        [] r.e = "up"    ->
@@ -316,6 +322,7 @@ ApplyK(k, r) ==
             /\ Rx!LinkDown(RecentRst(k)) /\ Tx!LinkDown
             /\ lk' = [ClearTraining(k) EXCEPT !.up = FALSE, !.sDown = 0, !.ts1Req = 0, !.rarmed = FALSE,
                                               !.staleLc = (k.busy # "lc"), !.staleHp = (k.busy # "hp"),
+                                              !.dpPend = FALSE,
                                               !.det = @ /\ ~RecentRst(k), !.lfps = @ /\ ~RecentRst(k)]
             /\ todo' = <<>>
        [] r.e = "txph"  ->
@@ -349,9 +356,9 @@ ApplyK(k, r) ==
             /\ UNCHANGED <<rxv, todo>>
        [] r.e = "hpe"   ->
             /\ Tx!HpEnd(r.s, r.dl, r.c)
-            /\ lk' = [k EXCEPT !.busy = "none", !.ks = Min(@, K), !.gSkp = @ + r.cs + r.sk]
+            /\ lk' = [k EXCEPT !.busy = "none", !.ks = Min(@, K), !.gSkp = @ + r.cs + r.sk, !.dpHdr = r.dph]
             /\ UNCHANGED <<rxv, todo>>
-       [] r.e = "dps"   -> lk' = [k EXCEPT !.busy = "dp"] /\ UNCHANGED <<rxv, txv, todo>>
+       [] r.e = "dps"   -> lk' = [k EXCEPT !.busy = "dp", !.dpHdr = FALSE] /\ UNCHANGED <<rxv, txv, todo>>
        [] r.e = "dpe"   -> lk' = [k EXCEPT !.busy = "none", !.ks = Min(@, K), !.gSkp = @ + r.cs + r.sk]
                            /\ UNCHANGED <<rxv, txv, todo>>
        [] r.e = "tx_abort" ->
@@ -382,6 +389,15 @@ KaReq(dt) ==
     /\ ev' = [e |-> "tau", what |-> "ka"]
     /\ Rx!KeepaliveReq
     /\ UNCHANGED <<txv, lk, todo>>
+
+\* The header of a data packet is queued inside the link layer (DataPacketTransmitter -> header arbiter): its
+\* acceptance is not observable.  It is taken right before the record of the data header's start; c = its content.
+DpAccept(c) ==
+    /\ todo = <<>> /\ lk.dpPend /\ lk.up /\ Tx!AcceptJudge = "ok"
+    /\ ev' = [e |-> "tau", what |-> "dp_acc"]
+    /\ Tx!Accept(c)
+    /\ lk' = [lk EXCEPT !.dpPend = FALSE]
+    /\ UNCHANGED <<rxv, todo>>
 
 Init == Rx!Init /\ Tx!Init /\ lk = LkInit /\ todo = <<>> /\ ev = [e |-> "init"]
 
